@@ -4,11 +4,14 @@
 -/
 import UnifexModel.Driver.Entry
 import UnifexModel.Driver.Entries.StopSource
+import UnifexModel.Driver.Entries.Mutex
 
 namespace Unifex.Driver
 
 def table : List ModelEntries :=
   [ Entries.stopsource
+  , Entries.mutexv1
+  , Entries.mutexv2
   ]
 
 def lookup (m c : String) : Option Entry :=
